@@ -595,9 +595,9 @@ Definition check_mbr_parse_case (instr : list Z) (expected : list Z) : bool :=
   end.
 
 (* len(record_padding(iso_size)) = len(b'\x00' * padlen); the list itself is not built here
-   (zlen (ih_record_padding h iso) = Z.of_nat (Z.to_nat padlen), see record_padding_aligned) *)
+   (zlen (ih_record_padding h iso) = Z.max 0 padlen; padlen >= 0 by record_padding_aligned) *)
 Definition check_padding_case (iso_size heads sectors expected_len : Z) : bool :=
-  Z.of_nat (Z.to_nat (snd (calc_cc heads sectors iso_size))) =? expected_len.
+  Z.max 0 (snd (calc_cc heads sectors iso_size)) =? expected_len.
 
 Definition ghdr_tuple : Type := (Z * Z * Z * Z * list Z * Z * Z * Z * Z)%type.
 Definition check_gpt_header_case (t : ghdr_tuple) (expected : list Z) : bool :=
